@@ -33,14 +33,15 @@ end
 /-- The negated generator has ONE name across the three places that must agree — the label
 `multi_prepare` attaches to `v·(−G)`, the custom label `from_dual_msm` files aside as a fixed base
 (and the key it uses), and the entry `verifier::fixed_bases` provides — and the two families of
-names of fixed and permutation commitments cannot collide with it or with each other; the error
-values are the ones the model returns. Re-checked against the sources on every run
+names of fixed and permutation commitments cannot collide with it or with each other;
+`process_msm` adds the scalar at each of its three fixed-base sites and overwrites at none; the
+error values are the ones the model returns. Re-checked against the sources on every run
 (`translators/c15_consts.py`). -/
 theorem generated_constants_consistent :
     Gen.negGLabelPrepare = Gen.negGLabelFromDual ∧ Gen.negGKeyFromDual = Gen.negGLabelFromDual ∧
     Gen.negGInFixedBases = Gen.negGKeyFromDual ∧
     Gen.fixedComInfix ≠ Gen.permComInfix ∧ Gen.fixedComInfix ≠ "" ∧ Gen.permComInfix ≠ "" ∧
-    Gen.fromDualInsertSites = 3 ∧ Gen.fromDualAssertSites = 3 ∧
+    Gen.fromDualInsertSites = 0 ∧ Gen.fromDualEntryAddSites = 3 ∧ Gen.fromDualAssertSites = 3 ∧
     Gen.guardBatchLenErr = "OpeningError" ∧ Gen.batchLenErr = "InvalidInstances" ∧
     Gen.batchPiLenErr = "InvalidInstances" ∧ Gen.batchTrailingErr = "Opening" ∧
     Gen.batchFinalErr = "Opening" := by decide
@@ -55,6 +56,19 @@ variable {F G : Type} [Field F] [DecidableEq F] [AddCommGroup G] [Module F G] [D
 theorem msmkzg_eval_spec (m : MsmKzg F G) :
     m.eval = (m.map (fun t => t.scalar • t.base)).sum :=
   MsmKzg.eval_eq m
+
+/-- `MSMKZG::from_many` stands for the sum of the values of its parts, `MSMKZG::from_base` for the
+base itself. -/
+theorem msmkzg_constructors (msms : List (MsmKzg F G)) (b : G) :
+    (MsmKzg.fromMany msms).eval = (msms.map (·.eval)).sum ∧ (MsmKzg.fromBase b : MsmKzg F G).eval = b := by
+  constructor
+  · rw [MsmKzg.eval_eq]
+    induction msms with
+    | nil => simp [MsmKzg.fromMany]
+    | cons m t ih =>
+      have : MsmKzg.fromMany (m :: t) = m ++ MsmKzg.fromMany t := by simp [MsmKzg.fromMany]
+      rw [this, MsmKzg.value_append, ih, List.map_cons, List.sum_cons, MsmKzg.eval_eq]
+  · simp [MsmKzg.fromBase, MsmKzg.eval]
 
 /-- `DualMSM::check` (the second copy of the `[ONE]` shortcut included) decides `τ • L = R` for the
 values `L`, `R` of the two channels. -/
